@@ -95,5 +95,10 @@ func parseOTF(file Resource, offset uint32, relativeOffset bool) (*Loader, error
 		pr.tables[entry.Tag] = sec
 	}
 
+	pr.size, err = file.Seek(0, io.SeekEnd)
+	if err != nil {
+		return nil, err
+	}
+
 	return pr, nil
 }
